@@ -18,6 +18,7 @@ package id
 
 import (
 	"context"
+	"sync"
 
 	json "github.com/bytedance/sonic"
 	"github.com/muyo/sno"
@@ -35,6 +36,11 @@ func GetSno() *Sno {
 type SnoGenerator struct {
 	*sno.Generator
 	tracer tracing.ITracer
+	// mu serialises New: sno.Generator.New is not safe for concurrent use when the
+	// time unit changes (a concurrent caller can bump the old sequence between the
+	// winner's CAS on the timestamp and its reset of the sequence), which yields
+	// duplicate ids.
+	mu sync.Mutex
 }
 
 func (g *Sno) NewIdGenerator(ctx context.Context, tracer tracing.ITracer) (result IGenerator, err error) {
@@ -81,6 +87,8 @@ type SnoId struct {
 }
 
 func (g *SnoGenerator) New() Id {
+	g.mu.Lock()
+	defer g.mu.Unlock()
 	return &SnoId{ID: g.Generator.New(0)}
 }
 
